@@ -277,7 +277,7 @@ def overflow_sites(ctx, run, rule, cone, want_types=NARROW, floor=None, label='n
                         from panics import opaque_container
                         s['opaque'] = None
                         for x in e[2]:
-                            s['opaque'] = s['opaque'] or opaque_container(x, b)
+                            s['opaque'] = s['opaque'] or opaque_container(x, b, arithmetic=True)
                     elif s['wit'] is None:
                         s['wit'] = wit
                 elif e[0] == 'call' and called(e[1], 'abs') and e[2]:
